@@ -12,7 +12,7 @@ use crate::{
     maps::{dump, mode_name, unit_count, Domain},
     rng::{hash_str, Rng},
     runner::{guard, Ctx},
-    sets::{self, SetDomain, SetSpec},
+    sets::{self, SetSpec},
 };
 
 fn counts(a: &DifficultyAttributes) -> Vec<(&'static str, u64)> {
@@ -107,13 +107,13 @@ pub fn case(ctx: &mut Ctx, idx: u64) {
         max_objects,
         ..Mix::default()
     };
-    let Some((mc, map)) = gen::gen_domain_map(&mut rng, &mx, Domain::Realistic) else {
+    let Some((mc, map)) = gen::gen_domain_map_ext(&mut rng, &mx, Domain::Realistic, 3, 15) else {
         ctx.count("skipped_no_domain_map");
         return;
     };
     let mode = gen::pick_mode(&mut rng, &map);
     let mname = mode_name(mode);
-    let mut spec = sets::gen_setspec(&mut rng, mode, SetDomain::Game).without_passed();
+    let mut spec = sets::gen_setspec_wide(&mut rng, mode, &map).without_passed();
     // make reflections / mania transformations frequent
     if rng.chance(0.3) {
         spec.mods.repr = sets::Repr::Lazer;
